@@ -1,3 +1,4 @@
 #!/bin/bash
-# runs the repository's pinned test command; prints the summary line
-cd /repo && /venv/bin/python -m pytest -ra -q -p no:cacheprovider --timeout=900 --continue-on-collection-errors "$@" 2>&1 | tail -5
+# runs the repository's pinned test command in its own session (leftover worker
+# processes of the tests cannot hold our pipes open); prints the summary lines
+cd /repo && /verif/tools/iso.py ${1:-900} /venv/bin/python -m pytest -ra -q -p no:cacheprovider --timeout=900 --continue-on-collection-errors -o faulthandler_timeout=300 2>&1 | grep -E "^(FAILED|ERROR)|passed|failed|Timeout|iso rc" | tail -8
